@@ -732,6 +732,16 @@ class VJoined:
     def splitlines(self):
         return list(self.lines)
 
+    def __sym_len__(self):
+        tot = None
+        for l in self.lines:
+            n = l.__sym_len__() if hasattr(l, "__sym_len__") else builtins.len(l)
+            tot = n if tot is None else tot + n
+        seps = builtins.len(self.sep) * max(builtins.len(self.lines) - 1, 0)
+        if tot is None:
+            return 0
+        return tot + seps
+
 
 def vf_join(sep, parts):
     parts = list(parts)
